@@ -45,6 +45,7 @@ type WOp struct {
 	SrcZeros int   // ReadFrom: the source answers (0, nil) this many times before every piece (legal for an io.Reader)
 	SrcStall bool  // ReadFrom: behind its data the source answers (0, nil) for ever (never an end): io.ErrNoProgress is the way out
 	SrcEnd   bool  // ReadFrom: the source returns its last bytes together with the end condition (n>0, err)
+	SrcKind  int   // ReadFrom/Copy: 0 a plain scripted reader; 1 *bytes.Reader, 2 *bytes.Buffer, 3 *strings.Reader over the data (sources with WriteTo, Len, ReadByte...)
 	Via      int   // Write: how the application hands the bytes over (0 w.Write; 1.. through a std helper, see writeVia)
 }
 
@@ -93,6 +94,9 @@ func (o WOp) String() string {
 		}
 	case WOpReadFrom, WOpCopy:
 		s += fmt.Sprintf("(%d in %d reads, srcErr=%v, endWithData=%v)", o.N, len(o.Chunks), o.SrcErr, o.SrcEnd)
+		if o.SrcKind != 0 {
+			s += " from " + [...]string{"", "*bytes.Reader", "*bytes.Buffer", "*strings.Reader"}[o.SrcKind]
+		}
 		if o.SrcZeros > 0 || o.SrcStall {
 			s += fmt.Sprintf("[zero reads=%d stall=%v]", o.SrcZeros, o.SrcStall)
 		}
@@ -332,6 +336,11 @@ func drawHistory(r *eng.Run, cfg WCfg, maxOps int) []WOp {
 				r.Probe("copy_source_that_stalls")
 			}
 			op.SrcEnd = r.T.Chance(sim.LFault, 1, 3)
+			if !op.SrcErr && op.SrcZeros == 0 && !op.SrcStall && r.T.Chance(sim.LCfg, 1, 4) {
+				op.SrcKind, op.SrcEnd = 1+r.T.Int(sim.LCfg, 3), false
+				op.Chunks = nil
+				r.Probe("copy_source_is_a_std_in_memory_reader")
+			}
 		}
 		ops = append(ops, op)
 	}
@@ -523,6 +532,38 @@ func ExecHistory(r *eng.Run, wr *WRun, seed uint32, check func(step int)) {
 			wr.Accepted = append(wr.Accepted, keep[:k]...)
 			wr.Offered += k
 		case WOpReadFrom, WOpCopy:
+			if op.SrcKind != 0 {
+				// A standard in-memory reader over the application's bytes
+				// (bytes.NewBuffer does not copy them).
+				data := patBytes(seed, wr.Offered, op.N)
+				keep := append([]byte(nil), data...)
+				var rdr io.Reader
+				switch op.SrcKind {
+				case 1:
+					rdr = bytes.NewReader(data)
+				case 2:
+					rdr = bytes.NewBuffer(data)
+				default:
+					rdr = strings.NewReader(string(data))
+				}
+				if op.Kind == WOpCopy {
+					ob.N, ob.Err = io.Copy(w, rdr)
+				} else {
+					ob.N, ob.Err = w.ReadFrom(rdr)
+				}
+				if ob.N < 0 || ob.N > int64(op.N) {
+					r.Failf("accepted_count_out_of_range", "%s returned n=%d", op, ob.N)
+				}
+				if !bytes.Equal(data, keep) && wr.Mutated == "" {
+					wr.Mutated = fmt.Sprintf("step %d %s modified the bytes the source was built over%s", i, op, firstDiff(data, keep))
+				}
+				wr.Accepted = append(wr.Accepted, keep[:ob.N]...)
+				wr.Offered += int(ob.N)
+				if int(ob.N) != op.N && ob.Err == nil {
+					r.Failf("bytes_lost", "%s: the source held %d bytes, %d reported accepted, no error", op, op.N, ob.N)
+				}
+				break
+			}
 			src := &chunkSrc{data: patBytes(seed, wr.Offered, op.N), chunks: op.Chunks, fail: op.SrcErr, withData: op.SrcEnd, zeros: op.SrcZeros, stall: op.SrcStall}
 			if op.Kind == WOpCopy {
 				ob.N, ob.Err = io.Copy(w, struct{ io.Reader }{src})
